@@ -86,17 +86,18 @@ func newJWTCredClaims(vc *Credential, minimizeVC bool) (*JWTCredClaims, error) {
 
 	// currently jwt encoding supports only single subject (by the spec)
 	jwtClaims := &jwt.Claims{
-		Issuer:    vc.Issuer.ID,                           // iss
-		NotBefore: josejwt.NewNumericDate(vc.Issued.Time), // nbf
-		ID:        vc.ID,                                  // jti
-		Subject:   subjectID,                              // sub
+		Issuer:  vc.Issuer.ID, // iss
+		ID:      vc.ID,        // jti
+		Subject: subjectID,    // sub
 	}
 
 	if vc.Expired != nil {
 		jwtClaims.Expiry = josejwt.NewNumericDate(vc.Expired.Time) // exp
 	}
 
+	// a credential parsed with validation disabled may have no issuance date
 	if vc.Issued != nil {
+		jwtClaims.NotBefore = josejwt.NewNumericDate(vc.Issued.Time) // nbf
 		jwtClaims.IssuedAt = josejwt.NewNumericDate(vc.Issued.Time)
 	}
 
